@@ -652,6 +652,13 @@ func (g goCall) CallFromStack(context *Context, n int, scratch []reflect.Value) 
 				return nil, err
 			}
 		}
+		if result[0].Kind() == reflect.Interface && !result[0].IsNil() {
+			// Functions declared to return interface{} (first, second, get...)
+			// give a Value whose static type is the interface; keep the
+			// concrete value on the stack, since that's what conversion of
+			// arguments is based on.
+			result[0] = result[0].Elem()
+		}
 		if result[0].Kind() == reflect.Func {
 			vm.Stack = append(vm.Stack, StackFrame{
 				Value:      reflect.ValueOf(&goCall{f: result[0], expression: expression}),
